@@ -12,7 +12,7 @@ ASSUMPTIONS = ["caller contract: a key is inserted only if absent (the table doe
                "mca parameters not registered (index = PARSEC_ERROR): max_collisions_hint / max_table_nb_bits set directly by the harness",
                "inductive argument: INV holds after init (query init), every operation from every INV state re-establishes INV and changes the contents as the map model says (one query per operation kind) => histories of any length over <=4 keys / <=3 levels"]
 BOUNDS = {"quick": {"keys": 4, "levels": "1..3", "hint": "0..2 (symbolic)", "operations": "1 from every valid state"},
-          "thorough": {"keys": 4, "levels": "1..3", "concurrent": "2 threads x 1-2 operations, R=2 scheduling slots per thread + drain, 7 scenarios"}}
+          "thorough": {"keys": 4, "levels": "1..3", "concurrent": "2 threads x 1 operation each (5 scenarios): R=2 scheduling slots per thread + drain; R=1 + drain for the two scenarios with a resizing thread"}}
 
 def rehash(k, nb):
     a = 0xaa88564915a; b = 0x165e44f1fc94; M = (1 << 64) - 1
@@ -127,7 +127,7 @@ def queries(ctx):
     # publishes it (immutable afterwards): loads of them commute with every other step
     RO_ATOMIC_RESIZE = RO_BASE + ["parsec_hash_table_head_s.1", "parsec_hash_table_head_s.2", "parsec_hash_table_head_s.4"]
     for sc in (8, 9):
-        conc(sc, 1, ("thorough",), timeout=5400, atomic_resize=True, ro=RO_ATOMIC_RESIZE, other=3, mem_gb=40)
+        conc(sc, 1, ("thorough",), timeout=5400, atomic_resize=True, ro=RO_ATOMIC_RESIZE, other=3)
     # Scenarios 1, 3, 5, 7 of hc.c (whole inserts racing with each other / with find+remove: 110-190 yield points) are beyond reach
     # (no verdict in 75 min, see the report); the resize race is covered by 8 and 9 (second half of the insert).
     return qs
@@ -156,13 +156,13 @@ def mutants(ctx):
       # concurrency mutants: only the (thorough-tier) Engine S queries can see them
       Mutant("find_old_table_without_bucket_lock", U, "        parsec_atomic_lock( &head->buckets[hash].lock );\n        for(current_item = head->buckets[hash].first_item;", "        for(current_item = head->buckets[hash].first_item;", queries=["conc_migrate_vs_remove_same_old_bucket_r2"]),
       Mutant("unlock_handle_keeps_read_lock_while_resizing", U, "    cur_head = ht->rw_hash;\n    parsec_atomic_unlock(&ht->rw_hash->buckets[hash].lock);\n    parsec_atomic_rwlock_rdunlock(&ht->rw_lock);\n\n    if( resize ) {\n        parsec_atomic_rwlock_wrlock(&ht->rw_lock);",
-             "    cur_head = ht->rw_hash;\n    parsec_atomic_unlock(&ht->rw_hash->buckets[hash].lock);\n\n    if( resize ) {\n        parsec_atomic_rwlock_wrlock(&ht->rw_lock);", queries=["conc_unlock_resize_vs_find_r2"]),
+             "    cur_head = ht->rw_hash;\n    parsec_atomic_unlock(&ht->rw_hash->buckets[hash].lock);\n\n    if( resize ) {\n        parsec_atomic_rwlock_wrlock(&ht->rw_lock);", queries=["conc_unlock_resize_vs_find_r1"]),
       
     ] if ctx.thorough else [])
 CLAIMED = True
 MANIFEST = {
  "engine": "cbmc-src",
- "text": "Bounded model checking of the real parsec_hash_table.c (with the real parsec_rwlock.c). Sequential half, inductive: from EVERY valid table state over 4 colliding/splitting keys and 1..3 table levels (symbolic: which keys are stored, at which level, in which order inside a bucket, which old levels are still linked, max_collisions_hint, lock counters; one query per operation kind and table shape) ONE operation - insert, find, remove, find-or-insert through lock_bucket_handle/nolock_find_handle/nolock_insert_handle/unlock_bucket_handle, the lock_bucket/nolock_*/unlock_bucket key API, for_all, fini - is executed symbolically and the solver shows: the result equals the map model, every other key stays stored exactly once in the bucket its hash selects, the representation invariant is re-established (so histories of any length are covered; init establishes it), resize happens exactly when the documented trigger fires, an old table emptied by the operation is unlinked, all locks are released, for_all visits each stored item once, fini frees every level once. Concurrent half (thorough tier): the same code under symbolic schedules (IR-level sequentialization), 2 threads x 1-2 operations around a resize / a migration out of an old table, results and final contents compared with the sequential orders, bounded progress (no deadlock) asserted.",
- "note": "4 concrete keys, <=3 levels (2/4/8 buckets), generic 64-bit key functions; the universal hash is routed through a memo of the real function on that domain (checked equal; range of the real function checked for every 64-bit key); malloc served from static pools; SC memory model; concurrent scenarios bounded by R=2 scheduling slots per thread + drain, yields elided only before loads of fields no thread writes (asserted).",
+ "text": "Bounded model checking of the real parsec_hash_table.c (with the real parsec_rwlock.c). Sequential half, inductive: from EVERY valid table state over 4 colliding/splitting keys and 1..3 table levels (symbolic: which keys are stored, at which level, in which order inside a bucket, which old levels are still linked, max_collisions_hint, lock counters; one query per operation kind and table shape) ONE operation - insert, find, remove, find-or-insert through lock_bucket_handle/nolock_find_handle/nolock_insert_handle/unlock_bucket_handle, the lock_bucket/nolock_*/unlock_bucket key API, for_all, fini - is executed symbolically and the solver shows: the result equals the map model, every other key stays stored exactly once in the bucket its hash selects, the representation invariant is re-established (so histories of any length are covered; init establishes it), resize happens exactly when the documented trigger fires, an old table emptied by the operation is unlinked, all locks are released, for_all visits each stored item once, fini frees every level once. Concurrent half (thorough tier): the same code under symbolic schedules (IR-level sequentialization), 2 threads x 1 operation around a pending resize / a migration out of an old table / the unlinking of an emptied table, results and final contents compared with the sequential orders, bounded progress (no deadlock) asserted.",
+ "note": "4 concrete keys, <=3 levels (2/4/8 buckets), generic 64-bit key functions; the universal hash is routed through a memo of the real function on that domain (checked equal; range of the real function checked for every 64-bit key); malloc served from static pools; SC memory model; concurrent scenarios bounded by R=2 (R=1 where a thread resizes) scheduling slots per thread + drain, the body of resize atomic there, yields elided only before loads of fields no thread writes (asserted).",
  "technique": "CBMC bounded model checking + SAT on the real translation unit (one operation from a symbolic valid pre-state); IR-level sequentialization (clang LLVM IR -> ll2c.py) + CBMC for the concurrent scenarios",
 }
